@@ -371,7 +371,23 @@ class _Struct(ast.NodeTransformer):
       * `a, b = x, y` with plain names on the left that do not occur on the right -> `a = x; b = y`;
       * `a = b = <literal>` -> `a = <literal>; b = <literal>`;
       * `if not c: A else: B` / `if x is not y: A else: B` / `if a != b: A else: B` -> positive test first with the arms exchanged;
+      * `if c: X; break else: REST` -> `if c: X; break` + REST (same for raise; `if c: REST else: break` with the test negated);
       * `while True: if not c: break; BODY` -> `while c: BODY`; `x = x` dropped; comprehension `for i, s in enumerate(X)` -> `for i in range(len(X))`."""
+
+    def visit_FunctionDef(self, node):
+        self.generic_visit(node)
+        # `for v in X: a = v; BODY` with v read nowhere else is `for a in X: BODY` (a working copy of the loop variable)
+        import collections
+        loads = collections.Counter(n.id for n in ast.walk(node) if isinstance(n, ast.Name) and isinstance(n.ctx, ast.Load))
+        stores = collections.Counter(n.id for n in ast.walk(node) if isinstance(n, ast.Name) and isinstance(n.ctx, (ast.Store, ast.Del)))
+        for lp in ast.walk(node):
+            if isinstance(lp, ast.For) and isinstance(lp.target, ast.Name) and lp.body and not lp.orelse:
+                st, v = lp.body[0], lp.target.id
+                if isinstance(st, ast.Assign) and len(st.targets) == 1 and isinstance(st.targets[0], ast.Name) and isinstance(st.value, ast.Name) \
+                        and st.value.id == v and st.targets[0].id != v and loads[v] == 1 and stores[v] == 1:
+                    lp.target = ast.copy_location(ast.Name(id=st.targets[0].id, ctx=ast.Store()), lp.target)
+                    lp.body = lp.body[1:] or [ast.copy_location(ast.Pass(), st)]
+        return node
 
     def visit_While(self, node):
         self.generic_visit(node)
@@ -427,7 +443,26 @@ class _Struct(ast.NodeTransformer):
 
     visit_SetComp = visit_GeneratorExp = visit_DictComp = visit_ListComp
 
+    def _unelse(self, stmts):
+        """`if c: X; break else: REST` is `if c: X; break` followed by REST (same for raise); when only the else arm leaves a loop
+        (`if c: REST else: break`) the test is negated first (not for `else: raise`, the usual end of a dispatch chain)"""
+        JUMP = (ast.Break, ast.Raise)
+        ANY = (ast.Break, ast.Raise, ast.Return, ast.Continue)
+        out = []
+        for st in stmts:
+            if isinstance(st, ast.If) and st.body and st.orelse:
+                if isinstance(st.orelse[-1], ast.Break) and not isinstance(st.body[-1], ANY):
+                    st = ast.copy_location(ast.If(test=_negate(st.test), body=st.orelse, orelse=st.body), st)
+                if isinstance(st.body[-1], JUMP):
+                    rest = st.orelse
+                    out.append(ast.copy_location(ast.If(test=st.test, body=st.body, orelse=[]), st))
+                    out.extend(self._unelse(rest))
+                    continue
+            out.append(st)
+        return out
+
     def _split(self, stmts):
+        stmts = self._unelse(stmts)
         out = []
         kept = [st for st in stmts if not (isinstance(st, ast.Assign) and len(st.targets) == 1 and isinstance(st.targets[0], ast.Name)
                                            and isinstance(st.value, ast.Name) and st.value.id == st.targets[0].id)]      # `x = x`
